@@ -6,7 +6,7 @@
 set -u
 id="$1"; wt="$2"; prop="$3"; runs="${4:-}"
 dst="/verif/seeded/$id"; mkdir -p "$dst"
-cp "$wt/SEEDED/patch.diff" "$wt/SEEDED/demo.py" "$dst/" || exit 2
+if [ -z "${KEEP_PATCH:-}" ]; then cp "$wt/SEEDED/patch.diff" "$dst/" || exit 2; fi; cp "$wt/SEEDED/demo.py" "$dst/" || exit 2
 [ -f "$wt/SEEDED/notes.md" ] && cp "$wt/SEEDED/notes.md" "$dst/"
 work="/dev/shm/simgriffe-seeded-$$"; rm -rf "$work"; mkdir -p "$work"
 rsync -a --exclude __pycache__ --exclude .git /repo/src /repo/tests /repo/config /repo/pyproject.toml /repo/docs /repo/mkdocs.yml /repo/README.md /repo/CHANGELOG.md /repo/duties.py /repo/scripts "$work/" 2>/dev/null
